@@ -523,7 +523,37 @@ impl Dec {
 fn mutate(rng: &mut Rng, valid: &[u8], other: &[u8]) -> (Vec<u8>, &'static str) {
     let mut b = valid.to_vec();
     let n = b.len().max(1);
-    match rng.below(12) {
+    match rng.below(13) {
+        12 => {
+            // a text field (doc comment, name) given a large length and filled with bytes that are
+            // not valid UTF-8: locate a run of printable text and rewrite the u16 length before it
+            // the generated doc comments start with known words; the u16 length precedes the text
+            let mut starts: Vec<usize> = vec![];
+            for pat in [&b"procedure f"[..], &b"module "[..]] {
+                let mut i = 2;
+                while i + pat.len() <= b.len() {
+                    if &b[i..i + pat.len()] == pat {
+                        starts.push(i);
+                    }
+                    i += 1;
+                }
+            }
+            if !starts.is_empty() {
+                let s0 = *rng.pick(&starts);
+                let len = *rng.pick(&[21845usize, 21846, 30000, 65535, 300]);
+                // (not 0xfd..0xff: those are the block opcodes, a run of them is a recursion bomb, which is
+                // exercised in a child process)
+                let fill = *rng.pick(&[0xc0u8, 0x80, 0xbf, 0xe2]);
+                let old_len = b[s0 - 2] as usize | ((b[s0 - 1] as usize) << 8);
+                b[s0 - 2] = (len & 0xff) as u8;
+                b[s0 - 1] = (len >> 8) as u8;
+                let tail: Vec<u8> = b[(s0 + old_len).min(b.len())..].to_vec();
+                b.truncate(s0);
+                b.extend(std::iter::repeat(fill).take(len));
+                b.extend(tail);
+            }
+            (b, "text-field-invalid-utf8")
+        }
         0 | 1 => {
             let k = rng.range(1, 3);
             for _ in 0..k {
@@ -720,6 +750,19 @@ impl Prop for C19 {
             out.count("fault:recursion-bomb");
             out.evals += 1;
             let exe = std::env::current_exe().unwrap();
+            // the same through the decoder alone: a run of nested-block opcodes, crafted as bytes
+            let nbytes = depth * 3;
+            if let Ok(o) = std::process::Command::new(&exe).arg("bomb").arg(nbytes.to_string()).arg("bytes").output() {
+                out.evals += 1;
+                let text = String::from_utf8_lossy(&o.stdout).to_string();
+                let last = text.lines().filter(|l| l.starts_with("STAGE ")).last().unwrap_or("STAGE none").to_string();
+                obs.str(&last);
+                if !o.status.success() {
+                    out.violate("C19/abort/recursion-bomb/decoder-bytes", format!("an encoding of {} nested while blocks ({} bytes) kills the process in ProgramAst::from_bytes after `{}`", nbytes, text.lines().find(|l| l.starts_with("LEN ")).unwrap_or(""), last));
+                } else {
+                    out.count(&format!("reach:outcome|ProgramAst|recursion-bomb-bytes|{}", last.replace("STAGE ", "")));
+                }
+            }
             match std::process::Command::new(exe).arg("bomb").arg(depth.to_string()).output() {
                 Ok(o) => {
                     let text = String::from_utf8_lossy(&o.stdout).to_string();
